@@ -57,6 +57,11 @@ CLAIMS["C09"] = ("bounded symbolic execution (symx, real arithmetic) of the real
          "closer than char_margin x max width, and a space is inserted exactly when the gap exceeds word_margin x size; the neighbour relation of two lines equals the documented close/same-size/aligned rule "
          "(both orientations); a single column reads top to bottom and a left column before a right one for every boxes_flow in (-1,1) and None; the layout of two glyphs is unchanged under scaling by 1/4..8.",
          "4.C09")
+CLAIMS["C02"] = ("bounded symbolic execution (symx) of the real PDFXRefStream.get_pos/get_objids, PDFDocument.getobj/_getobj_objstm/read_xref_from/find_xref and PDFXRef.load",
+         "For all /Index ranges (symbolic starts), field widths, ALL entry bytes and every object number the cross-reference stream decoding equals ISO 7.5.8; for every revision table (each object absent/direct/"
+         "in an object stream, per revision) getobj returns the newest definition with caching on or off; for every Prev/XRefStm pointer graph (incl. cycles) sections load newest -> XRefStm -> Prev, each once; "
+         "classic tables and startxref are read for every subsection partition, EOL form and buffer size (enumeration harnesses). The body-scan fallback is not claimed.",
+         "4.C02")
 NA = {}
 def main():
     props = [json.loads(l) for l in open(os.path.join(ROOT, "properties.jsonl"))]
